@@ -44,6 +44,12 @@ func RunServer(t *testing.T, sc sim.Scenario, prefixes []string, nontrivial func
 	// predicates assume that dispatch (C01) and the barrier (C03) behave, so
 	// they are not reported for a scenario that already shows such a problem
 	// (it is counted under other-clause instead; C01/C03 report it themselves).
+	for _, p := range probs {
+		if p.Sig == "undecided/attribution" {
+			f := Describe(sc, h)
+			return engine.Verdict{NonTrivial: false, Labels: append(f.Labels(), "dontcare:attribution-undecided")}
+		}
+	}
 	basic, c01 := false, false
 	for _, p := range probs {
 		if (strings.HasPrefix(p.Sig, "C01/") || strings.HasPrefix(p.Sig, "C03/")) && p.Sig != "C03/later-request-waits-below-limit" {
